@@ -194,6 +194,21 @@ def run(rep, ctx):
             if len(add) != 1 or "GetTargetNodes().GetConValues()" not in render(add[0]).replace("GetConverter().GetValuePresolver().", "") or \
                     not ("con_group" in render(add[0]) or "GetConstraintGroup(" in render(add[0])):
                 probs.append("target is `%s`, expected the target constraint node of the keeper's group .Add()" % (render(add[0])[:80] if add else "?"))
+            # the position counts every container: the loop's own index, or a side counter stepped once on every way through the body
+            if len(sel) == 1:
+                pv_ = strip(call_args(sel[0])[0])
+                lp_ = f.enclosing(ae[0], ("ForStmt", "WhileStmt", "DoStmt", "CXXForRangeStmt"))
+                body_ = [x for x in lp_.get("c", []) if x is not None][-1] if lp_ is not None else None
+                from ..cfg import loop_shape as _ls
+                sh_ = _ls(f, lp_) if lp_ is not None and lp_["k"] in ("ForStmt", "WhileStmt") else None
+                if sh_ is not None and sh_["var"] == pv_.get("declId") and sh_["stepped"]:
+                    pass
+                elif body_ is not None:
+                    inner_ = {x["i"] for x in walk(body_)}
+                    incs_ = [n for n in walk(body_) if n["k"] == "UnaryOperator" and n.get("op") == "++" and strip(kids(n)[0]).get("declId") == pv_.get("declId")]
+                    conts_ = [n for n in walk(body_) if n["k"] == "ContinueStmt"]
+                    if len(incs_) != 1 or [c_ for c_ in f.cfg.facts_at(incs_[0]) if c_[0] in inner_] or any(not f.cfg.dominates(incs_[0], c_) for c_ in conts_):
+                        probs.append("the position `%s` is not advanced on every way through the loop body: constraints after a skipped one are linked from the wrong slot" % render(pv_))
             if sel and add:
                 pair = [x for x in walk(ae[0]) if x["k"] in ("CXXConstructExpr",) and x.get("callee", "").startswith("std::pair")]
                 if pair:
